@@ -125,4 +125,319 @@ example : GoFuncs.permissionIsAllowed 2 false (GoFuncs.wildStringsContains false
 example : GoFuncs.permissionIsAllowed 2 false (GoFuncs.wildStringsContains false false) false 0 true = some false := by decide
 example : GoFuncs.permissionDescCompare 1 1 0 5 = 0 ∧ GoFuncs.permissionDescCompare 1 2 0 0 = -1 := by decide
 
+
+section CallPath
+open CallFlags
+
+/-! ## translator v2: the call path (flags with bit operations) -/
+
+/-- `CallFlag.Has` translated = the structured `has` on the 16 flag sets. -/
+theorem callflagHas_translated :
+    ∀ a ∈ List.range 16, ∀ b ∈ List.range 16, GoFuncs.callflagHas (b : Int) (a : Int) = (ofNat a).has (ofNat b) := by
+  decide +kernel
+
+/-- the flag arithmetic of callInternal: `f &^ (WriteStates|AllowNotify)` translated = `minus (ofNat 10)`. -/
+theorem bandnot_translated :
+    ∀ f ∈ List.range 16, GoFuncs.bandnot (f : Int) 10 = (((ofNat f).minus (ofNat 10)).toNat : Int) := by decide +kernel
+
+/-- the flags callInternal hands on to callExFromNative, as the model has them (before the intersection with the
+caller's flags, which callExFromNative does): the safe-method drop of `Params.real`. -/
+def passedOn (requested : Nat) (safe : Bool) : Nat :=
+  (if safe then (ofNat requested).minus Params.real.safeDrop else ofNat requested).toNat
+
+/-- `callInternal_translated`: for every requested flag set, callee (safe or not), caller (deployed or not, any
+manifest), hardfork side of Domovoi and stored manifest, the TRANSLATED callInternal reaches callExFromNative iff
+the model's `permitted` holds, and then passes on exactly the model's flags. Leaves: `ctx != nil` true,
+`ctx.IsDeployed()` = the frame has a manifest, `mfst != nil` = a manifest is consulted (`consulted`),
+`GetContract` fails = nothing stored, `mfst.CanCall(…)` = canCall of the consulted manifest. -/
+theorem callInternal_translated (P : Params) (requested : Nat) (hr : requested ∈ List.range 16)
+    (cur : Frame) (t : Target) (stored : Option Manifest) (b1 b2 : Bool) (c1 c2 c3 c4 : Int) :
+    GoFuncs.contractCallInternal (requested : Int) b1 b2 t.safe c1 true cur.manifest.isSome P.callerFromContext c2
+      (consulted P cur t stored).isSome
+      (((consulted P cur t stored).map (fun m => m.canCall t.hash t.manifest t.method)).getD false)
+      c3 stored.isNone c4
+    = if permitted P cur t stored then some [(passedOn requested t.safe : Int)] else Option.none := by
+  have hb := bandnot_translated requested hr
+  have h10 : Params.real.safeDrop = ofNat 10 := by decide
+  have ht : (ofNat requested).toNat = requested := (by decide : ∀ r ∈ List.range 16, (ofNat r).toNat = r) requested hr
+  obtain ⟨fl, man, vs, via, st, rq⟩ := cur
+  cases hs : t.safe
+  · cases man with
+    | none => simp [GoFuncs.contractCallInternal, permitted, consulted, hs, passedOn, ht]
+    | some m =>
+      cases hd : P.callerFromContext
+      · cases stored with
+        | none => simp [GoFuncs.contractCallInternal, permitted, consulted, hs, hd, passedOn, ht]
+        | some sm =>
+          cases hc : sm.canCall t.hash t.manifest t.method <;>
+            simp [GoFuncs.contractCallInternal, permitted, consulted, hs, hd, passedOn, hc, ht]
+      · cases hc : m.canCall t.hash t.manifest t.method <;>
+          simp [GoFuncs.contractCallInternal, permitted, consulted, hs, hd, passedOn, hc, ht]
+  · simp [GoFuncs.contractCallInternal, permitted, consulted, hs, passedOn, h10, hb]
+
+/-- the child flags of the machine's `.call` step are the caller's flags ∩ what the translated callInternal
+passes on (callExFromNative: `f = ctx.GetCallFlags() & f`, `Interops.childIsAnd`). -/
+theorem childFlags_eq_passedOn (viaToken : Bool) (cur : CallFlags) :
+    ∀ requested ∈ List.range 16, ∀ safe : Bool,
+      childFlags Params.real viaToken cur (ofNat requested) safe = cur.inter (ofNat (passedOn requested safe)) := by
+  intro requested hr safe
+  have : ∀ r ∈ List.range 16, ∀ s : Bool, ∀ tk : Bool,
+      (if s then (ofNat r).minus (if tk then Params.real.safeDropToken else Params.real.safeDrop) else ofNat r)
+        = ofNat (passedOn r s) := by decide +kernel
+  unfold childFlags
+  rw [this requested hr safe viaToken]
+
+/-- `CallFromNative` translated passes `Params.real.fromNative` (All) to callExFromNative. -/
+theorem callFromNative_translated (b : Bool) :
+    GoFuncs.contractCallFromNative b = some [(Params.real.fromNative.toNat : Int)] := by
+  simp [GoFuncs.contractCallFromNative]; decide
+
+/-- `runtime.LoadScript` translated: refused if the requested flags have a bit outside All, otherwise the child's
+flags are the machine's `(cur ∩ loadScriptMask) ∩ requested` — for all 16 context flag sets and requested bytes. -/
+theorem loadScript_translated :
+    ∀ cf ∈ List.range 16, ∀ rq ∈ List.range 64, ∀ c1 c2 : Int,
+      GoFuncs.runtimeLoadScript c1 (rq : Int) c2 false (cf : Int) =
+        if rq < 16 then some [((((ofNat cf).inter Params.real.loadScriptMask).inter (ofNat rq)).toNat : Int)] else Option.none := by
+  intro cf hcf rq hrq c1 c2
+  have : ∀ cf ∈ List.range 16, ∀ rq ∈ List.range 64,
+      GoFuncs.runtimeLoadScript 0 (rq : Int) 0 false (cf : Int) =
+        if rq < 16 then some [((((ofNat cf).inter Params.real.loadScriptMask).inter (ofNat rq)).toNat : Int)] else Option.none := by
+    decide +kernel
+  simpa [GoFuncs.runtimeLoadScript] using this cf hcf rq hrq
+
+
+end CallPath
+
+section IsValidFamily
+open NeoModel.Flags.MF
+
+/-! ## translator v2: the check order of the IsValid family -/
+
+theorem orElse_some {α : Type} (a b : Option α) (e : α) : (a <|> b) = some e ↔ a = some e ∨ (a = none ∧ b = some e) := by
+  cases a <;> simp
+
+/-- the errors Parameters.AreValid can return. -/
+def isParamErr : Err → Bool
+  | .paramEmptyName | .paramVoid | .paramBadType | .dupParams => true
+  | _ => false
+
+theorem param_isValid_class (vt : List Nat) (p : Param) (e : Err) (h : p.isValid vt = some e) : isParamErr e = true := by
+  unfold Param.isValid at h
+  split at h
+  · cases h; rfl
+  · split at h
+    · cases h; rfl
+    · split at h
+      · cases h; rfl
+      · cases h
+
+theorem paramsValid_class (vt : List Nat) (ps : List Param) (e : Err) (h : paramsValid vt ps = some e) : isParamErr e = true := by
+  unfold paramsValid at h
+  rcases (orElse_some _ _ _).1 h with h | ⟨_, h⟩
+  · obtain ⟨p, _, hp⟩ := List.exists_of_findSome?_eq_some h
+    exact param_isValid_class vt p e hp
+  · split at h
+    · cases h; rfl
+    · cases h
+
+/-- outcome labels of the translated Method.IsValid / Event.IsValid. -/
+def methodLabel : Option Err → String
+  | none => "ok"
+  | some .methodBadReturn => "smartcontract_ConvertToParamType_int_m_ReturnType_1_err"
+  | some e => if isParamErr e then "Parameters_m_Parameters_AreValid_err" else "err"
+
+def eventLabel : Option Err → String
+  | none => "ok"
+  | some e => if isParamErr e then "Parameters_e_Parameters_AreValid_err" else "err"
+
+/-- the translated `Method.IsValid` makes the decisions of the model's `Method.isValid`, in the same order, with the
+same first failing check (name, offset, return type, parameters). -/
+theorem methodIsValid_translated (vt : List Nat) (m : Method) :
+    GoFuncs.manifestMethodIsValid m.name.isEmpty m.offset (!vt.contains m.ret) (paramsValid vt m.params).isSome
+      = methodLabel (m.isValid vt) := by
+  unfold GoFuncs.manifestMethodIsValid Method.isValid
+  by_cases h1 : m.name.isEmpty = true
+  · simp [h1, methodLabel, isParamErr]
+  · by_cases h2 : m.offset < 0
+    · simp [h1, h2, methodLabel, isParamErr]
+    · by_cases h3 : vt.contains m.ret = true
+      · have h3' : m.ret ∈ vt := by simpa using h3
+        cases hp : paramsValid vt m.params with
+        | none => simp [h1, h2, h3', methodLabel]
+        | some e =>
+          have hc := paramsValid_class vt m.params e hp
+          simp only [h1, h2, h3, if_false, Bool.false_eq_true, Bool.not_true, Option.isSome_some, if_true, methodLabel]
+          cases e <;> simp_all [isParamErr]
+      · have h3' : ¬ m.ret ∈ vt := by simpa using h3
+        simp [h1, h2, h3', methodLabel, isParamErr]
+
+theorem eventIsValid_translated (vt : List Nat) (e : MF.Event) :
+    GoFuncs.manifestEventIsValid e.name.isEmpty (paramsValid vt e.params).isSome = eventLabel (e.isValid vt) := by
+  unfold GoFuncs.manifestEventIsValid Event.isValid
+  by_cases h1 : e.name.isEmpty = true
+  · simp [h1, eventLabel, isParamErr]
+  · cases hp : paramsValid vt e.params with
+    | none => simp [h1, eventLabel]
+    | some x =>
+      have := paramsValid_class vt e.params x hp
+      simp [h1, eventLabel, this]
+
+/-- the translated `Parameter.IsValid`, PARTIAL: the translator renders the final `_, err := ConvertToParamType(..);
+return err` as the leaf's label whatever `err` is, so only the first two checks (empty name, then Void) are tied:
+the translated function answers "err" exactly when the model reports one of them, in that order. -/
+theorem parameterIsValid_translated_partial (vt : List Nat) (p : Param) (b : Bool) :
+    GoFuncs.manifestParameterIsValid p.name.isEmpty (p.typ : Int) b = "err" ↔
+      (p.isValid vt = some .paramEmptyName ∨ p.isValid vt = some .paramVoid) := by
+  unfold GoFuncs.manifestParameterIsValid Param.isValid voidType
+  by_cases h1 : p.name.isEmpty = true
+  · simp [h1]
+  · by_cases h2 : p.typ = 255
+    · simp [h1, h2]
+    · have : ¬ ((p.typ : Int) = 255) := by omega
+      by_cases h3 : vt.contains p.typ = true <;> simp [h1, h2, h3, this]
+
+/-- classes of errors by the sub-check of Manifest.IsValid that reports them. -/
+def isGroupErr : Err → Bool
+  | .nullGroups | .badGroupSignature | .dupGroups => true
+  | _ => false
+def isPermErr : Err → Bool
+  | .permEmptyMethod | .permDupMethods | .dupPermissions => true
+  | _ => false
+
+def manLabel : Option Err → String
+  | none => "ok"
+  | some e => if isGroupErr e then "Groups_m_Groups_AreValid_hash_err"
+              else if isPermErr e then "Permissions_m_Permissions_AreValid_err" else "err"
+
+theorem groupsValid_class (verify : Bytes → Bytes → Bool) (ch : Bool) (gs : Option (List Group)) (e : Err)
+    (h : groupsValid verify ch gs = some e) : isGroupErr e = true := by
+  unfold groupsValid at h
+  cases gs with
+  | none => cases h; rfl
+  | some gs =>
+    simp only at h
+    rcases (orElse_some _ _ _).1 h with h | ⟨_, h⟩
+    · split at h
+      · obtain ⟨g, _, hg⟩ := List.exists_of_findSome?_eq_some h
+        split at hg
+        · cases hg
+        · cases hg; rfl
+      · cases h
+    · split at h
+      · cases h; rfl
+      · cases h
+
+theorem permsValid_class (ps : List Perm) (e : Err) (h : permsValid ps = some e) : isPermErr e = true := by
+  unfold permsValid at h
+  rcases (orElse_some _ _ _).1 h with h | ⟨_, h⟩
+  · obtain ⟨p, _, hp⟩ := List.exists_of_findSome?_eq_some h
+    unfold Perm.isValid at hp
+    cases hm : p.methods with
+    | none => simp [hm] at hp
+    | some ms =>
+      simp only [hm] at hp
+      split at hp
+      · cases hp; rfl
+      · split at hp
+        · cases hp; rfl
+        · cases hp
+  · split at h
+    · cases h; rfl
+    · cases h
+
+theorem method_isValid_class (vt : List Nat) (m : Method) (e : Err) (h : m.isValid vt = some e) :
+    isGroupErr e = false ∧ isPermErr e = false := by
+  unfold Method.isValid at h
+  split at h
+  · cases h; exact ⟨rfl, rfl⟩
+  · split at h
+    · cases h; exact ⟨rfl, rfl⟩
+    · split at h
+      · cases h; exact ⟨rfl, rfl⟩
+      · have := paramsValid_class vt _ e h
+        cases e <;> simp_all [isParamErr, isGroupErr, isPermErr]
+
+theorem event_isValid_class (vt : List Nat) (m : MF.Event) (e : Err) (h : m.isValid vt = some e) :
+    isGroupErr e = false ∧ isPermErr e = false := by
+  unfold Event.isValid at h
+  split at h
+  · cases h; exact ⟨rfl, rfl⟩
+  · have := paramsValid_class vt _ e h
+    cases e <;> simp_all [isParamErr, isGroupErr, isPermErr]
+
+theorem abiValid_class (vt : List Nat) (ms : List Method) (es : List MF.Event) (e : Err) (h : abiValid vt ms es = some e) :
+    isGroupErr e = false ∧ isPermErr e = false := by
+  unfold abiValid at h
+  rcases (orElse_some _ _ _).1 h with h | ⟨_, h⟩
+  · split at h
+    · cases h; exact ⟨rfl, rfl⟩
+    · cases h
+  · rcases (orElse_some _ _ _).1 h with h | ⟨_, h⟩
+    · obtain ⟨m, _, hm⟩ := List.exists_of_findSome?_eq_some h
+      exact method_isValid_class vt m e hm
+    · rcases (orElse_some _ _ _).1 h with h | ⟨_, h⟩
+      · split at h
+        · cases h; exact ⟨rfl, rfl⟩
+        · cases h
+      · rcases (orElse_some _ _ _).1 h with h | ⟨_, h⟩
+        · obtain ⟨m, _, hm⟩ := List.exists_of_findSome?_eq_some h
+          exact event_isValid_class vt m e hm
+        · split at h
+          · cases h; exact ⟨rfl, rfl⟩
+          · cases h
+
+theorem manifestIsValid_core (cs nameE stdE stdD featOk tnil twild tdup ser : Bool) (abi grp prm : Option Err) (c : Int)
+    (habi : ∀ e, abi = some e → isGroupErr e = false ∧ isPermErr e = false)
+    (hgrp : ∀ e, grp = some e → isGroupErr e = true)
+    (hprm : ∀ e, prm = some e → isPermErr e = true ∧ isGroupErr e = false) :
+    GoFuncs.manifestIsValid cs nameE stdE stdD abi.isSome featOk grp.isSome tnil twild tdup prm.isSome c false (!ser)
+    = manLabel (((if nameE then some Err.noName else none) <|>
+        (if stdE then some Err.emptyStandard else none) <|>
+        (if stdD then some Err.dupStandards else none) <|>
+        abi <|>
+        (if featOk then none else some Err.badFeatures) <|>
+        grp <|>
+        ((if tnil && !twild then some Err.nullTrusts else none) <|> (if tdup then some Err.dupTrusts else none)) <|>
+        prm) <|>
+        (if cs && !ser then some Err.notSerializable else none)) := by
+  unfold GoFuncs.manifestIsValid
+  cases nameE
+  case true => simp [manLabel, isGroupErr, isPermErr]
+  cases stdE
+  case true => simp [manLabel, isGroupErr, isPermErr]
+  cases stdD
+  case true => simp [manLabel, isGroupErr, isPermErr]
+  cases abi
+  case some e => have := habi e rfl; simp [manLabel, this.1, this.2]
+  cases featOk
+  case false => simp [manLabel, isGroupErr, isPermErr]
+  cases grp
+  case some e => have := hgrp e rfl; simp [manLabel, this]
+  cases tnil <;> cases twild <;> cases tdup <;> (try (simp [manLabel, isGroupErr, isPermErr]; done)) <;>
+  (cases prm
+   case some e => have := hprm e rfl; simp [manLabel, this.1, this.2]
+   cases cs <;> cases ser <;> simp [manLabel, isGroupErr, isPermErr])
+
+/-- `manifestIsValid_translated`: the TRANSLATED Manifest.IsValid(hash, checkSize) makes the decisions of the model's
+`isValidFull`, in the same order, with the same first failing check — name, empty / duplicate standards, ABI,
+features, groups, null / duplicate trusts, permissions, serialisability — for every manifest, signature verifier
+and both values of checkSize. Leaves = the model's sub-checks. -/
+theorem manifestIsValid_translated (vt : List Nat) (verify : Bytes → Bytes → Bool) (checkHash checkSize : Bool)
+    (compact : Bytes → Bytes) (m : Man) (c : Int) :
+    GoFuncs.manifestIsValid checkSize m.name.isEmpty (m.standards.contains [])
+      (hasDupBy (fun a b : Bytes => a == b) m.standards) (abiValid vt m.methods m.events).isSome
+      (featuresOk m.features) (groupsValid verify checkHash m.groups).isSome
+      m.trusts.value.isNone m.trusts.wildcard (hasDupBy (fun a b : Desc => a == b) (m.trusts.value.getD []))
+      (permsValid m.perms).isSome c false (!m.serializable compact)
+    = manLabel (m.isValidFull vt verify checkHash checkSize compact) := by
+  unfold Man.isValidFull Man.isValid trustsValid
+  exact manifestIsValid_core checkSize _ _ _ _ _ _ _ _ _ _ _ c
+    (fun e h => abiValid_class vt _ _ e h) (fun e h => groupsValid_class verify checkHash _ e h)
+    (fun e h => by
+      have hp := permsValid_class _ e h
+      exact ⟨hp, by cases e <;> simp_all [isPermErr, isGroupErr]⟩)
+
+
+end IsValidFamily
+
 end NeoModel.GoFuncsTie.C16
